@@ -175,16 +175,8 @@ def r2(ctx, cg, fl):
             if not (methods & {'write', 'append', 'create', 'create_new', 'truncate'}):
                 ctx.ok(rule, key, c.where(), 'read-only open')
                 continue
-            # a write-mode open that cannot create, truncate or append, and whose File is never handed to anything (it is closed at once), changes
-            # nothing: it is a probe of "can this file be opened for writing" (ETXTBSY, EACCES, EROFS)
-            if not unknown and not (methods & {'append', 'create', 'create_new', 'truncate'}):
-                # the Result is only matched (discriminant, a move of the Err payload): neither it nor what flows from its Ok side is an argument of a call
-                from ..analysis import forward_locals
-                carriers = forward_locals(b, c.dest[0]) | {c.dest[0]}
-                users = [what for l_ in carriers for (bbx, idx, what) in b.operand_uses(l_) if what[0] == 'callarg' and 'File' in (what[1].t.get('argtys') or [''])[what[2]]]
-                if not users:
-                    ctx.ok(rule, key, c.where(), 'write-mode open without create / truncate / append whose File is dropped at once: a probe, nothing is written')
-                    continue
+            # (a write-mode open is a violation even when nothing is written through it: on overlayfs open(O_WRONLY) copies the file up into the upper
+            # layer and detaches it from its hard links - D154 was exactly such a "probe", and this rule had been loosened to let it through)
         ctx.violation(rule, key, c.where(), '%s is reachable from the dry-run path: %s' % (kind, ' -> '.join(cg.path_to(k)[-5:])))
     ctx.floor(rule, 'File::create(OUT) in get_output_writer', n_ok, 1)
     # the lock primitive and every FsCommand primitive stay unreachable
